@@ -40,6 +40,7 @@ def run(tier, seed):
     progs = []
     while len(progs) < n:
         directed_cum = len(progs) % 5 == 2
+        directed_reb = False
         if directed_cum:
             # a span that starts before time 0 and a cumulative output counted from time 0; no explicit time dependence
             p = g.program({"requests": True, "state_rates": False, "nsteps": g.rng.choice([3, 4]), "no_time": True,
@@ -52,6 +53,28 @@ def run(tier, seed):
             # compartments: reordering the compartments must still only permute the results
             p = g.program({"requests": False, "state_rates": False, "nsteps": 2, "nonlinear": True, "two_inf": True, "p_iadj": 1.0,
                            "nstrat": g.rng.choice([1, 2]), "p_post": 0.0, "p_full": 1.0, "min_strata": 2, "h": g.rng.choice(["1/4", "1/2"])})
+        elif len(progs) % 7 == 4:
+            # the population is redistributed (adjust_population_split) over a stratification that is not the last one
+            # applied: independent stratifications still commute, presentation still does not matter
+            p = g.program({"requests": g.rng.random() < 0.4, "state_rates": False, "nsteps": 2, "nstrat": g.rng.choice([2, 2, 3]),
+                           "p_post": 0.0, "p_full": g.rng.choice([1.0, 0.6]), "min_strata": 2, "h": g.rng.choice(["1/4", "1/2"])})
+            p["ops"] = [o for o in p["ops"] if o["op"] != "rebalance"]
+            sts_ = [o for o in p["ops"] if o["op"] == "strat" and o["kind"] == "plain"]
+            if len(sts_) < 2:
+                continue
+            tgt_ = sts_[g.rng.randrange(len(sts_) - 1)]
+            n_ = len(tgt_["strata"])
+            props_ = [gen.Fraction(1, 8)] * n_
+            props_[g.rng.randrange(n_)] = 1 - gen.Fraction(n_ - 1, 8)
+            filt_ = {}
+            if g.rng.random() < 0.3:
+                o_ = g.rng.choice([o for o in sts_ if o is not tgt_])
+                filt_ = {o_["name"]: g.rng.choice(o_["strata"])}
+            items_ = [(s_, str(v_)) for s_, v_ in zip(tgt_["strata"], props_)]
+            g.rng.shuffle(items_)
+            at_ = max(i for i, o in enumerate(p["ops"]) if o["op"] == "strat") + 1
+            p["ops"].insert(at_, {"op": "rebalance", "strat": tgt_["name"], "filt": filt_, "props": dict(items_)})
+            directed_reb = True
         elif len(progs) % 4 == 3:
             # several stratifications with mixing matrices (of different sizes): category order vs Kronecker order
             p = g.program({"requests": False, "state_rates": False, "nsteps": 2, "nonlinear": True, "p_mix": 1.0,
@@ -59,7 +82,7 @@ def run(tier, seed):
         else:
             p = g.program({"requests": g.rng.random() < 0.5, "state_rates": False, "nsteps": g.rng.choice([2, 3]),
                            "nstrat": g.rng.choice([0, 1, 2, 2, 3]), "p_post": 0.0, "h": g.rng.choice(["1/4", "1/2", "1/8"])})
-        if any(o["op"] in ("rebalance", "arraypop", "cv") for o in p["ops"]) or \
+        if any(o["op"] in ("arraypop", "cv") or (o["op"] == "rebalance" and not directed_reb) for o in p["ops"]) or \
                 any(o["op"] == "req" and o["req"]["type"] == "cv" for o in p["ops"]):
             continue
         # cumulative outputs that start at a model time (time 0 in particular, when the span starts before it)
